@@ -88,7 +88,8 @@ def program(draw):
              "remote": draw(st.integers(0, 3)) if kind[1] == "c" else ("index" if kind[1] == "i" else "worktree"),
              "cwd": draw(st.sampled_from(DIRS)),
              "paths": draw(st.sampled_from([None, None, ["."], ["sub"], ["sub"], ["other"], ["deep"], ["a.ipynb"], ["c.ipynb"], ["sub/c.ipynb", "b.ipynb"],
-                                           ["a.ipynb", "b.ipynb", "c.ipynb"], ["sub", "other", "a.ipynb"]]))}
+                                           ["a.ipynb", "b.ipynb", "c.ipynb"], ["sub", "other", "a.ipynb"],
+                                           ["ABS:sub"], ["ABS:sub/c.ipynb"], ["ABS:other", "ABS:a.ipynb"]]))}      # ABS: = given as an absolute path
         # the same comparison through the command line (`nbdiff <ref> [<ref>] [<path>...]`): brings the ref-vs-path
         # disambiguation of the arguments under the same oracle (the index cannot be named on the command line)
         q["cli"] = kind in ("cc", "cw") and draw(st.sampled_from([True, False, False]))
@@ -269,6 +270,10 @@ def run_case(case):
         nt = False
         for qi, q0 in enumerate(case["queries"]):
             q = dict(q0)
+            if q.get("paths"):
+                q["paths"] = [os.path.join(os.path.realpath(repo.root), p[4:]) if p.startswith("ABS:") else p for p in q["paths"]]
+                if any(p.startswith("ABS:") for p in q0["paths"]):
+                    out.count("queries_with_absolute_path_filters")
             cwd = os.path.join(repo.root, q["cwd"])
             if not os.path.isdir(cwd):
                 out.count("queries_skipped_cwd_missing")
@@ -310,6 +315,11 @@ def run_case(case):
                 for fa, fb in pairs_iter:
                     if os.path.realpath(os.getcwd()) != os.path.realpath(cwd) and cwd_moved is None:
                         cwd_moved = os.getcwd()
+                    if any(isinstance(f, str) and f != NULL for f in (fa, fb)):
+                        # the command line took its arguments for two plain files instead of a comparison of revisions
+                        out.fail("examines_exactly_what_git_reports", "arguments_taken_for_two_files", detail=dict(detail, pair=[str(fa)[:60], str(fb)[:60]]))
+                        got = None
+                        break
                     got.append(tuple(NULL if f == NULL else f.read() for f in (fa, fb)))
                     for f in (fa, fb):
                         if hasattr(f, "close"):
@@ -320,6 +330,8 @@ def run_case(case):
                 continue
             after = os.getcwd()
             os.chdir(saved_cwd)
+            if got is None:
+                continue
             if cwd_moved is not None or os.path.realpath(after) != os.path.realpath(cwd):
                 out.fail("cwd_unchanged", "working_directory_changed", "during iteration" if cwd_moved else "after exhaustion", detail=detail)
             if sorted(got) != sorted(want):
